@@ -269,6 +269,11 @@ func (s Signer) keyName() enc.Name {
 	return s.KeyName.toEnc()
 }
 
+// The shipped certificate signers stamp their validity period with time.Now(), which carries the
+// host's time zone; the wire format is UTC. This process therefore lives in a zone that is not UTC
+// (and not a whole number of hours away from it), as most hosts do.
+func init() { time.Local = time.FixedZone("verif+0530", 5*3600+30*60) }
+
 // build returns the recording wrapper around the shipped signer, or nil for no signer.
 func (s Signer) build() *recSigner {
 	tm := fixedTimer{now: time.UnixMilli(s.NowMs), nonce: s.TNonce.bytes()}
